@@ -45,7 +45,8 @@ class Scene(object):
 
     def new_file(self, d, name=None):
         self.n += 1
-        name = name or 'f%d.dat' % self.n
+        # (one name in eight carries a blank and parentheses: legal file names)
+        name = name or ('f%d.dat' % self.n if self.rng.random() > 0.125 else 'f %d (v2).dat' % self.n)
         p = os.path.join(d, name)
         self.files[p] = self.n
         return p
